@@ -15,7 +15,7 @@ LEVEL_RULE = (
     "DF4 and DF5; CA(8) and interrogator codes 0..127 through allcall on DF11 built with PI = parity XOR code; every "
     "reply-specific decoder on every DF 0..31 (guard matrix). Random remaining bits. Distinct = distinct frame hashes."
 )
-EXHAUSTIVE_SUBDOMAINS = ["8192 identity patterns x {DF5, DF21, TC28}", "FS x DR x IIS x IDS product x {DF4, DF5}",
+EXHAUSTIVE_SUBDOMAINS = ["8192 identity patterns x {DF5, DF21, TC28}", "FS x DR x IIS x IDS product x {DF4, DF5}", "interrogator overlays 0..127 plus every single high bit x {0,5,22,79} and random 24-bit overlays",
                          "CA 0..7, interrogator code 0..127", "guard matrix: 8 decoders x DF 0..31"]
 ASSUMPTIONS = ["description strings returned beside FS/DR/IDS/CA are not judged, only the numeric fields"]
 REQUIRED = ["id_df5", "id_df21", "id_tc28", "x0", "x1", "surv_df4", "surv_df5", "ic_ii", "ic_si", "ic_corrupt", "ca", "guards"]
@@ -166,7 +166,12 @@ def cases(ctx):
                 if ctx.mine(i):
                     yield "surv", {"fs": fs_, "dr": dr_}
                 i += 1
-    for code in range(128):
+    # the overlay is 24 bits wide: everything above 79 is a corrupt code, also when its low 7 bits look legal
+    codes = list(range(128)) + [(1 << b) | k for b in range(7, 24) for k in (0, 5, 22, 79)] + [0xFFFFFF, 0xFFFF80, 0x123400]
+    import random as _r
+    crng = _r.Random(808)
+    codes += [crng.getrandbits(24) for _ in range(64 if quick else 1000)]
+    for code in codes:
         if ctx.mine(i):
             yield "allcall", {"code": code, "reps": 16 if quick else 60}
         i += 1
